@@ -101,7 +101,7 @@ def coqchk(pid, root):
     return r.returncode == 0, r.stdout
 
 BASELINE_OFF = "cd /repo && go build ./... && go test -vet=off -count=1 -timeout 25m ./..."
-HOOK_COMMITS = []
+HOOK_COMMITS = ["ce197cb"]
 
 PROPS["C12"].update(
     level_text="Theorems hist_partition / hist_exactly_one_bucket / hist_no_panic / render_counts / unmarshal_preserves / unmarshal_covers_nonnegative are proved in Coq for all bucket lists and latency lists (unbounded) about a Gallina model of Histogram.Add, the renderers and Buckets.UnmarshalText; the model is tied to the Go code on every run by differential execution (extracted model vs real code) and the property is decided on every implementation observation by a checker defined in Coq.",
@@ -170,4 +170,25 @@ reg("C01",
                  "elapsed in [0, 2^63), hits in [0, 2^64) for the contract theorems (const_dom); the no-panic / sign theorems hold for all integers"],
     level_text="closed_loop_upper (generic, all pacers/stall histories/lengths), const_no_panic, const_neg_stops, const_zero_unlimited, const_overflow_stops, const_contract, const_positive_wait, const_lower are proved in Coq over Z with the uint64/int64 wrap-arounds of the Go code written out; the model is compared bit-exactly with ConstantPacer.Pace on every run, and the property's clauses are decided on every observed call and closed-loop trajectory by a checker defined in Coq.",
     technique="Coq proof over exact integer model (nia/lia), closed-loop induction; bit-exact differential correspondence",
+    timeout={"quick": 600, "thorough": 3000})
+
+reg("C19",
+    needs_cli=True,
+    rule="textual flag values fed to flag.Value.Set of the real flag types through the verif driver of package main: "
+         "-rate N, N/unit, N/kunit, N/compound, 0, infinity and 17 malformed forms (each both as raw text against the "
+         "model and against the generator's intent, plus the String()->Set round trip); 1..8 repeated -header lines with "
+         "random spacing/case and malformed lines; -max-body in every documented notation, -1 and malformed; -dns-ttl; "
+         "1..6 repeated -connect-to tuples; -resolvers lists (IPv4 with/without port, invalid, IPv6 = declared don't-care); "
+         "every case is tagged non-trivial",
+    clauses={1: "accepted -rate N/D does not store exactly N per D", 2: "-rate 0/infinity rejected", 3: "-rate 0/infinity does not give an unlimited rate that demands -max-workers",
+             4: "malformed -rate accepted", 5: "printed rate does not parse back to the same rate (implementation round trip)", 6: "printed rate read by the model differs from the stored rate",
+             7: "max-workers guard trips for a limited rate", 30: "well-formed -header rejected", 31: "header values not accumulated in order under the exact key", 32: "a header key is missing",
+             43: "-max-body value differs from the documented meaning", 53: "-dns-ttl value differs from the documented meaning",
+             62: "well-formed -connect-to rejected", 63: "-connect-to mapping differs from the documented one", 73: "-resolvers addresses not normalised as documented"},
+    assumptions=["time.ParseDuration, strconv.Atoi, datasize.UnmarshalText, net.SplitHostPort, net.ParseIP are library code: reference models in Base/Duration.v, Base/Str.v, Model/Flags.v, sampled on every run",
+                 "rate_print_parse is proved relative to the two library laws parse(Duration.String d) = d and Atoi(Itoa n) = n (hypotheses of the theorem, sampled through the String()->Set round trip)",
+                 "IPv6 resolver addresses are outside the model (don't-care)"],
+    trusted_base=["hook: /repo/verif_driver.go and internal/resolver/verif_export.go (build tag verif)"],
+    level_text="rate_meaning, rate_default_unit, rate_bare_unit(+values), rate_zero_unlimited, rate_infinity_unlimited, rate_rejects_malformed(+_duration), headers_set_wellformed, headers_accumulate, connect_to_map, connect_to_rejects_wrong_arity, resolver_addrs_default_port are proved in Coq for all strings about byte-level Gallina models of the flag parsers; the models are compared with flag.Value.Set of the real types (through the verif driver of package main) on every run and each stored value is judged against the generator's intent by a checker defined in Coq.",
+    technique="Coq proofs over byte-string parser models; differential correspondence through the package-main driver",
     timeout={"quick": 600, "thorough": 3000})
